@@ -21,6 +21,8 @@ for x in v:
         if rc != 0:
             print("CANNOT", x["name"], out[-200:]); continue
         rc, t = sh("/venv/bin/python -m pytest -q -p no:cacheprovider -x 2>&1 | tail -1", wt)
+        if "412 passed" not in t:
+            print("CANNOT", x["name"], "tests after fuzzy apply:", t.strip()[-80:]); continue
         sh("git add -A -N .", wt)  # new files of the variant belong to the diff
         rc, diff = sh("git diff", wt)
         open(patch, "w").write(diff)
